@@ -212,6 +212,9 @@ func (e *Engine) RenderTo(w io.Writer, name string, context map[string]interface
 
 // Load loads a template by name
 func (e *Engine) Load(name string) (*Template, error) {
+	// What the cache held for this name when this call looked (nil: nothing)
+	var seen *Template
+
 	// Only check the cache if caching is enabled
 	if e.environment.cache {
 		vhook("lookup")
@@ -219,6 +222,7 @@ func (e *Engine) Load(name string) (*Template, error) {
 		e.mu.RLock()
 		tmpl, ok := e.templates[name]
 		e.mu.RUnlock()
+		seen = tmpl
 
 		// If template exists in cache
 		if ok {
@@ -325,6 +329,14 @@ func (e *Engine) Load(name string) (*Template, error) {
 	if e.environment.cache {
 		vhook("insert")
 		e.mu.Lock()
+		// If the entry changed while this call was reading the loaders, a
+		// registration (or another load) completed in the meantime: it is the
+		// more recent source for the name and must not be overwritten by what
+		// was read before it
+		if cur, ok := e.templates[name]; ok && cur != seen {
+			e.mu.Unlock()
+			return cur, nil
+		}
 		e.templates[name] = template
 		e.mu.Unlock()
 	}
